@@ -94,3 +94,67 @@ fn f_qos2_double_resubmit() {
     let dup = q.len() == 2 && q[0] == q[1];
     if dup { println!("FINDING-PRESENT F-QOS2-DOUBLE-RESUBMIT"); } else { println!("FINDING-ABSENT F-QOS2-DOUBLE-RESUBMIT"); }
 }
+
+// ---------------------------------------------------------------------------------------------------------------------
+// Regression demonstrations of REPAIRED engine findings: each closure replays the recorded failing history against the
+// real engine and returns Err(description) when the defect is back. Bounded (a handful of fixed histories), never a proof.
+
+/// F-ACK-CURRENT (C11): PUBCOMP / failing PUBREC arriving while the PUBREL / the operation is the encoder's current operation.
+fn ack_for_half_written_pubrel(failing_pubrec: bool) -> Result<(), String> {
+    let mut c = cfg(); c.ack_timeout = None;
+    let mut h = H::new(c);
+    h.connect(false, None).map_err(|e| format!("setup {:?}", e))?;
+    let _tag = h.submit(Kind::Pub2);
+    h.service(4096).unwrap(); h.write_completion().unwrap();
+    let pid = match h.sent_this_connection.last().map(|p| &**p) { Some(MqttPacket::Publish(p)) => p.packet_id, _ => return Err("setup: no publish".into()) };
+    h.deliver(MqttPacket::Pubrec(PubrecPacket { packet_id: pid, ..Default::default() }), 64).unwrap();
+    h.service(5).unwrap();                                // PUBREL only partly encoded
+    if h.ps.current_operation.is_none() { return Err("setup: PUBREL not half-written".into()); }
+    let rogue = if failing_pubrec { MqttPacket::Pubrec(PubrecPacket { packet_id: pid, reason_code: PubrecReasonCode::UnspecifiedError, ..Default::default() }) }
+                else { MqttPacket::Pubcomp(PubcompPacket { packet_id: pid, ..Default::default() }) };
+    let r = h.deliver(rogue, 64);
+    let tracked = h.cur_ok();
+    let _ = h.write_completion();
+    let panicked = std::panic::catch_unwind(std::panic::AssertUnwindSafe(|| { let _ = h.service(4096); })).is_err();
+    if panicked || !tracked || r.is_ok() { return Err(format!("ack for the half-written operation: accepted={} current_operation_still_tracked={} next_service_panicked={}", r.is_ok(), tracked, panicked)); }
+    if h.ps.state != ProtocolStateType::Halted { return Err("protocol violation did not halt the engine".into()); }
+    Ok(())
+}
+
+/// F-CONNACK-EARLY (C11/C07): CONNACK delivered while the CONNECT is half-encoded (capacity 5) or encoded but not yet flushed.
+fn connack_before_connect_flushed(half_encoded: bool) -> Result<(), String> {
+    let mut c = cfg(); c.ack_timeout = None;
+    let mut h = H::new(c);
+    h.open().map_err(|e| format!("setup {:?}", e))?;
+    h.service(if half_encoded { 5 } else { 4096 }).unwrap();
+    if half_encoded && h.ps.current_operation.is_none() { return Err("setup: CONNECT not half-written".into()); }
+    let r = std::panic::catch_unwind(std::panic::AssertUnwindSafe(|| h.connack(false, None)));
+    match r {
+        Err(_) => Err("CONNACK before the CONNECT was flushed panicked".into()),
+        Ok(Ok(())) => Err(format!("CONNACK before the CONNECT was flushed was accepted (state {:?})", h.ps.state)),
+        Ok(Err(_)) => if h.ps.state == ProtocolStateType::Halted { Ok(()) } else { Err("error without Halted".into()) },
+    }
+}
+
+#[test]
+fn engine_fixed_findings_stay_fixed() {
+    let mut fails: Vec<String> = Vec::new();
+    let mut cases = 0;
+    let runs: Vec<(&str, Box<dyn Fn() -> Result<(), String>>)> = vec![
+        ("F-ACK-CURRENT pubcomp", Box::new(|| ack_for_half_written_pubrel(false))),
+        ("F-ACK-CURRENT failing-pubrec", Box::new(|| ack_for_half_written_pubrel(true))),
+        ("F-CONNACK-EARLY half-encoded", Box::new(|| connack_before_connect_flushed(true))),
+        ("F-CONNACK-EARLY unflushed", Box::new(|| connack_before_connect_flushed(false))),
+    ];
+    for (name, f) in runs.iter() {
+        cases += 1;
+        match std::panic::catch_unwind(std::panic::AssertUnwindSafe(|| f())) {
+            Ok(Ok(())) => {}
+            Ok(Err(e)) => fails.push(format!("{}: {}", name, e)),
+            Err(_) => fails.push(format!("{}: panicked", name)),
+        }
+    }
+    println!("BOUNDED engine_fixed_findings_stay_fixed cases={} bound=the recorded failing histories of the repaired engine findings (F-ACK-CURRENT, F-CONNACK-EARLY), one replay each", cases);
+    for f in &fails { println!("BOUNDED-FAIL engine_fixed_findings_stay_fixed {}", f); }
+    assert!(fails.is_empty());
+}
